@@ -146,6 +146,8 @@ SBuf::rawAppendFinish(const char *start, size_type actualSize)
     Must(bufEnd() == start);
     Must(store_->canAppend(off_ + len_, actualSize));
     debugs(24, 8, id << " finish appending " << actualSize << " bytes");
+    if (!actualSize)
+        return; // nothing appended; we may not be at the end of a shared blob
 
     size_type newSize = length() + actualSize;
     Must3(newSize <= min(maxSize, store_->capacity-off_), "raw append fits", Here());
